@@ -226,7 +226,7 @@ func c30Run(sc c30Scenario, c *vmc.Chooser) (*c30World, sched.Outcome) {
 	})
 	sched.Observer = w.observe
 	defer func() { sched.Observer = nil }()
-	out := sched.Run(c, sched.Opts{MaxSteps: 6000}, func() {
+	out := sched.Run(c, sched.Opts{MaxSteps: 1200}, func() {
 		for _, op := range sc.Pre {
 			w.call(op)
 		}
@@ -254,7 +254,14 @@ func c30Check(r *vmc.Result, sc c30Scenario, w *c30World, out sched.Outcome, cho
 		return
 	}
 	if out.Deadlock || out.Horizon {
-		r.HarnessError("C30 %s: execution did not terminate: %+v; events %v", sc, out, w.log)
+		// an execution that already broke the oracle may well poll for ever afterwards (e.g. a stale
+		// poll that put the manager back to sleep after the final Wake): report what was seen
+		for _, v := range w.viol {
+			r.Violate(v.fp, v.what, rep())
+		}
+		if len(w.viol) == 0 {
+			r.HarnessError("C30 %s: execution did not terminate: %+v; events %v", sc, out, w.log)
+		}
 		return
 	}
 	// clause persist: nothing is in progress any more
@@ -271,7 +278,7 @@ func c30Check(r *vmc.Result, sc c30Scenario, w *c30World, out sched.Outcome, cho
 			w.violate(fmt.Sprintf("C30/persisted-state-differs/file-%s-memory-%s", ps.State, mem), "after the execution ended the state file says %s, the manager is %s", ps.State, mem)
 		}
 	}
-	if mem != StateAwake {
+	if mem != StateAwake && len(w.viol) == 0 {
 		r.HarnessError("C30 %s: execution ended in state %s; events %v", sc, mem, w.log)
 	}
 	for _, v := range w.viol {
